@@ -244,11 +244,12 @@ def use_mc_sample_size(size: int):
             temp_size = get_settings().monte_carlo_sample_size
             set_monte_carlo_sample_size(size)
 
-            # run the function
-            result = func(*args)
-
-            # restores the original sample size
-            set_monte_carlo_sample_size(temp_size)
+            try:
+                # run the function
+                result = func(*args)
+            finally:
+                # restores the original sample size, also when the function raises
+                set_monte_carlo_sample_size(temp_size)
 
             # return function output
             return result
